@@ -117,6 +117,87 @@ pub open spec fn mime_of(p: Seq<char>) -> Seq<char> {
     else if has_suffix(p, MimeType::CRT_SUFFIX@) { MimeType::APPLICATION_X_X509_CA_CERT@ }  // .crt -> application/x-x509-ca-cert
     else { MimeType::APPLICATION_OCTET_STREAM@ }
 }
+// the names the table speaks about: one of its 76 rows applies.  For any other name (an extension the registry does not list,
+// or no extension) the label is NOT constrained by the contract: appending a new, correct row to MimeType::detect_mime_type
+// is not a violation (the documented default application/octet-stream is checked by the statics falsifier only).
+pub open spec fn mime_listed(p: Seq<char>) -> bool {
+    has_suffix(p, MimeType::TXT_SUFFIX@)
+    || has_suffix(p, MimeType::CSS_SUFFIX@)
+    || dot_ext_in(p, seq![MimeType::HTML_SUFFIX@, MimeType::HTM_SUFFIX@])
+    || dot_ext_in(p, seq![MimeType::MJS_SUFFIX@, MimeType::JS_SUFFIX@])
+    || has_suffix(p, MimeType::APNG_SUFFIX@)
+    || has_suffix(p, MimeType::AVIF_SUFFIX@)
+    || has_suffix(p, MimeType::GIF_SUFFIX@)
+    || has_suffix(p, MimeType::SVG_SUFFIX@)
+    || dot_ext_in(p, seq![MimeType::JPG_SUFFIX@, MimeType::JPEG_SUFFIX@, MimeType::JPE_SUFFIX@, MimeType::JIF_SUFFIX@, MimeType::JFIF_SUFFIX@])
+    || has_suffix(p, MimeType::PNG_SUFFIX@)
+    || has_suffix(p, MimeType::WEBP_SUFFIX@)
+    || has_suffix(p, MimeType::BMP_SUFFIX@)
+    || dot_ext_in(p, seq![MimeType::ICO_SUFFIX@, MimeType::CUR_SUFFIX@])
+    || dot_ext_in(p, seq![MimeType::TIF_SUFFIX@, MimeType::TIFF_SUFFIX@])
+    || has_suffix(p, MimeType::AAC_SUFFIX@)
+    || has_suffix(p, MimeType::FLAC_SUFFIX@)
+    || has_suffix(p, MimeType::WAV_SUFFIX@)
+    || has_suffix(p, MimeType::M4A_SUFFIX@)
+    || has_suffix(p, MimeType::OGA_SUFFIX@)
+    || has_suffix(p, MimeType::N3GP_SUFFIX@)
+    || dot_ext_in(p, seq![MimeType::MPG_SUFFIX@, MimeType::MPEG_SUFFIX@])
+    || dot_ext_in(p, seq![MimeType::MP4_SUFFIX@, MimeType::M4V_SUFFIX@, MimeType::M4P_SUFFIX@])
+    || dot_ext_in(p, seq![MimeType::OGG_SUFFIX@, MimeType::OGV_SUFFIX@])
+    || has_suffix(p, MimeType::MOV_SUFFIX@)
+    || has_suffix(p, MimeType::WEBM_SUFFIX@)
+    || has_suffix(p, MimeType::ABW_SUFFIX@)
+    || has_suffix(p, MimeType::AVI_SUFFIX@)
+    || has_suffix(p, MimeType::AZV_SUFFIX@)
+    || has_suffix(p, MimeType::BIN_SUFFIX@)
+    || has_suffix(p, MimeType::BZ_SUFFIX@)
+    || has_suffix(p, MimeType::BZ2_SUFFIX@)
+    || has_suffix(p, MimeType::CDA_SUFFIX@)
+    || has_suffix(p, MimeType::CSH_SUFFIX@)
+    || has_suffix(p, MimeType::CSV_SUFFIX@)
+    || has_suffix(p, MimeType::DOC_SUFFIX@)
+    || has_suffix(p, MimeType::DOCX_SUFFIX@)
+    || has_suffix(p, MimeType::EOT_SUFFIX@)
+    || has_suffix(p, MimeType::EPUB_SUFFIX@)
+    || has_suffix(p, MimeType::GZ_SUFFIX@)
+    || has_suffix(p, MimeType::ICS_SUFFIX@)
+    || has_suffix(p, MimeType::JAR_SUFFIX@)
+    || has_suffix(p, MimeType::JSON_SUFFIX@)
+    || has_suffix(p, MimeType::JSONLD_SUFFIX@)
+    || dot_ext_in(p, seq![MimeType::MIDI_SUFFIX@, MimeType::MID_SUFFIX@])
+    || has_suffix(p, MimeType::MP3_SUFFIX@)
+    || has_suffix(p, MimeType::MPKG_SUFFIX@)
+    || has_suffix(p, MimeType::ODP_SUFFIX@)
+    || has_suffix(p, MimeType::ODS_SUFFIX@)
+    || has_suffix(p, MimeType::ODT_SUFFIX@)
+    || has_suffix(p, MimeType::OGX_SUFFIX@)
+    || has_suffix(p, MimeType::OPUS_SUFFIX@)
+    || has_suffix(p, MimeType::OTF_SUFFIX@)
+    || has_suffix(p, MimeType::PDF_SUFFIX@)
+    || has_suffix(p, MimeType::PHP_SUFFIX@)
+    || has_suffix(p, MimeType::PPT_SUFFIX@)
+    || has_suffix(p, MimeType::PPTX_SUFFIX@)
+    || has_suffix(p, MimeType::RAR_SUFFIX@)
+    || has_suffix(p, MimeType::RTF_SUFFIX@)
+    || has_suffix(p, MimeType::SH_SUFFIX@)
+    || has_suffix(p, MimeType::SWF_SUFFIX@)
+    || has_suffix(p, MimeType::TAR_SUFFIX@)
+    || has_suffix(p, MimeType::TS_SUFFIX@)
+    || has_suffix(p, MimeType::TTF_SUFFIX@)
+    || has_suffix(p, MimeType::VSD_SUFFIX@)
+    || has_suffix(p, MimeType::WEBA_SUFFIX@)
+    || has_suffix(p, MimeType::WOFF_SUFFIX@)
+    || has_suffix(p, MimeType::WOFF2_SUFFIX@)
+    || has_suffix(p, MimeType::XHTML_SUFFIX@)
+    || has_suffix(p, MimeType::XLS_SUFFIX@)
+    || has_suffix(p, MimeType::XLSX_SUFFIX@)
+    || has_suffix(p, MimeType::XML_SUFFIX@)
+    || has_suffix(p, MimeType::XUL_SUFFIX@)
+    || has_suffix(p, MimeType::ZIP_SUFFIX@)
+    || has_suffix(p, MimeType::N7Z_SUFFIX@)
+    || has_suffix(p, MimeType::N3G2_SUFFIX@)
+    || has_suffix(p, MimeType::CRT_SUFFIX@)
+}
 pub proof fn lemma_mime_registry_1()
     ensures
         MimeType::TXT_SUFFIX@ == seq!['.', 't', 'x', 't'],   // .txt
